@@ -6,10 +6,11 @@ from translator import tables
 
 
 def regen(ctx):
-    """regenerate (1) Gen/Registry.lean, the name -> (class, ovo) table of `_str_to_gemini`, and (2) Gen/Geminis.lean, the
+    """regenerate (1) Gen/Registry.lean, the name -> (class, ovo) table of `_str_to_gemini`, (2) Gen/Geminis.lean, the
     straight-line NumPy code of the `evaluate` methods (KL, TV, Hellinger, chi2, MMD; one definition per (ovo, return_grad))
-    as the source says now; Props/C01Gen.lean proves (2) equal to the hand models the C01 / C02 / C13 theorems are stated
-    about.  Returns the registry data (None when the registry could not be translated)."""
+    as the source says now, and (3) Gen/Wass.lean, `WassersteinGEMINI.evaluate` (loops as folds, `ot.emd2` a parameter);
+    Props/C01Gen.lean resp. Props/C01WassGen.lean prove (2) and (3) equal to the hand models the C01 / C02 / C13 theorems are
+    stated about.  Returns the registry data (None when the registry could not be translated)."""
     from translator import geminis as tg
     ctx.translation = {"units": [], "regenerated": 0, "identical_to_committed": True}
     failures = []
@@ -31,6 +32,18 @@ def regen(ctx):
         ctx.translation["identical_to_committed"] &= not changed
     except (tables.TranslationFailure, SyntaxError, OSError) as e:
         failures.append(f"geminis: {e}")
+    # (3) Gen/Wass.lean: WassersteinGEMINI.evaluate (Python loops; POT's `ot.emd2` is a parameter), proved equal to
+    # `wassScore` / `wassGrad` by Props/C01WassGen.lean
+    try:
+        from translator import wass as tw
+        wdata, wtext = tw.wass()
+        changed = core.write_if_changed(core.LEAN + "/GemVerif/Gen/Wass.lean", wtext)
+        ctx.translation["units"] += [f"{u['file']}::{u['class']}.evaluate[ovo={u['ovo']}, return_grad={u['return_grad']}]"
+                                     f" -> Gen/Wass.lean::{name}" for name, u in wdata.items()]
+        ctx.translation["regenerated"] += len(wdata)
+        ctx.translation["identical_to_committed"] &= not changed
+    except (tables.TranslationFailure, SyntaxError, OSError) as e:
+        failures.append(f"wass: {e}")
     if failures:
         ctx.extra["translation_failure"] = "; ".join(failures)
     return data
